@@ -161,6 +161,63 @@ def check_run(chk, cfg, lines, keep):
             keep.append((case, ix, ilq, ilp))
 
 
+def check_pool(chk, quick):
+    """the documented multiprocessing pattern (docs/multiprocessing.rst): a map-aware likelihood run inside `enable_pool` with a pool of
+    several workers whose tasks finish OUT OF ORDER (the cost of one likelihood call depends on the point).  Row i of every returned or
+    recorded set must still carry the likelihood of row i."""
+    import time
+    from multiprocessing.pool import ThreadPool
+
+    from .. import aspire_level as al
+
+    def one(x):
+        if x[0] > 0.3:
+            time.sleep(0.0004)          # the expensive part of parameter space
+        return float(-0.5 * np.sum((x - 1.0) ** 2) / 0.25)
+
+    def log_likelihood(samples, map_fn=map):
+        logl = -np.inf * np.ones(len(samples.x))
+        if samples.log_prior is None:
+            raise RuntimeError("log-prior has not been evaluated!")
+        mask = np.isfinite(np.asarray(samples.log_prior), dtype=bool)
+        x = np.asarray(samples.x)[mask, :]
+        logl[mask] = np.fromiter(map_fn(one, x), dtype=float)
+        return logl
+
+    for sampler, workers in (("importance", 4), ("smc", 4)) if quick else (("importance", 4), ("smc", 4), ("smc", 2), ("importance", 1)):
+        t = smcrun.Target(2)
+        a = al.make_aspire(t, dims=2)
+        a.log_likelihood = log_likelihood
+        a.fit(al.training_samples(2, 5))
+        case = {"level": "pool", "sampler": sampler, "workers": workers}
+        chk.count("pool_runs")
+        chk.case(None, json.dumps(case))
+        kw = dict(n_samples=48)
+        if sampler == "smc":
+            kw.update(sampler="smc", sampler_kwargs={"n_steps": 1}, adaptive=False, n_steps=2, return_history=True)
+        else:
+            kw.update(sampler="importance")
+        try:
+            with al.orng_seed(3), ThreadPool(workers) as pool, a.enable_pool(pool, close_pool=False):
+                out = a.sample_posterior(**kw)
+        except Exception as e:   # noqa
+            chk.fail("run total", case, repr(e)[:300], {"clause": "raise", "level": "pool"})
+            continue
+        smp, hist = (out if isinstance(out, tuple) else (out, None))
+        sets = [("returned samples", smp)] + ([(f"history[{i}]", p) for i, p in enumerate(hist.sample_history)] if hist is not None else [])
+        for name, st in sets:
+            x, ll = ns.to_np(st.x), ns.to_np(st.log_likelihood)
+            ref = np.array([one(v) for v in x])
+            lp = ns.to_np(st.log_prior)
+            ok = np.where(np.isfinite(lp), np.isclose(ll, ref, rtol=1e-9, atol=1e-9), True)
+            if not ok.all():
+                j = int(np.argmin(ok))
+                chk.fail("stored log-densities are L, pi, q at the row's coordinates", dict(case, where=name),
+                         f"{name}: row {j} stores log L = {ll[j]!r}, the likelihood at its coordinates is {ref[j]!r} ({int((~ok).sum())} of {len(ok)} rows differ; "
+                         f"pool of {workers} workers, tasks finishing out of order)", {"clause": "coherent", "level": "pool", "field": "ll"})
+                break
+
+
 def run(chk: core.Check):
     r = np.random.default_rng(chk.seed + 10010)
     quick = chk.tier == "quick"
@@ -172,6 +229,7 @@ def run(chk: core.Check):
     lines, keep = [], []
     for i in range(60 if quick else 1200):
         check_run(chk, gen_cfg(r, i), lines, keep)
+    check_pool(chk, quick)
     for (case, ix, ilq, ilp), rep in zip(keep, drv.batch(lines)):
         if not rep.ok:
             raise core.HarnessError(rep.err)
